@@ -34,6 +34,29 @@ type Replay struct {
 	Msg      string  `json:"msg,omitempty"`
 	KF       string  `json:"known_finding,omitempty"`
 	Inputs   []Input `json:"inputs"`
+	Images   []Image `json:"images"`
+}
+
+// Image is the file-system state at a crash point, as the engine computed it
+// from the real code (solver values filled in).
+type Image struct {
+	Call  int         `json:"call"`
+	Files []ImageFile `json:"files"`
+}
+
+type ImageFile struct {
+	Path string     `json:"path"`
+	Dir  bool       `json:"dir"`
+	Size int64      `json:"size"`
+	Segs []ImageSeg `json:"segs"`
+	Text string     `json:"text"`
+}
+
+type ImageSeg struct {
+	Off int64  `json:"off"`
+	N   int64  `json:"n"`
+	Tag string `json:"tag"`
+	Src int64  `json:"src"`
 }
 
 // T is the handle a harness receives.
@@ -43,6 +66,8 @@ type T struct {
 	Failed   []string
 	mismatch string
 	tmp      string
+	images   []Image
+	crashCalls int
 	cleanup  []func()
 	start    time.Time
 }
@@ -199,7 +224,7 @@ func RunReplayFile(path string) string {
 	if f == nil {
 		return "REPLAY-MISMATCH harness not registered: " + r.Harness
 	}
-	t := &T{inputs: r.Inputs, start: time.Now()}
+	t := &T{inputs: r.Inputs, images: r.Images, start: time.Now()}
 	verdict := ""
 	func() {
 		defer func() {
